@@ -37,6 +37,16 @@ CHECKS = {
              "merge semantics; later reads attributed via a history-free twin.",
         note="Updater callables from a fixed registry; static falsy arguments only in the all-empty (ValueError) case.",
     ),
+    "C05": dict(
+        category="exploration", design_ref="DESIGN.md 3 C05",
+        technique="runtime monitoring: round-trip oracle on the real codec (list level + csv module + insert/close/reopen) with an injectivity table over all points of the run",
+        text="Seeded points with nasty strings in every string slot, random float64 bit patterns, +-0.0, infinities, subnormals, ints and "
+             "microsecond times are pushed through Point._serialize_to_list -> csv -> _deserialize_from_list for both prefix styles and "
+             "7 dialects and through insert/close/reopen; decoded must equal original (sign of zero included, tags stay tags, fields "
+             "stay fields) and no two distinct originals may decode to the same point. Listed codec limits are recognised per differing "
+             "slot by mechanism and reported as KNOWN-FINDING; the clean stratum avoids their triggers.",
+        note="NaN never generated; a row only goes through a dialect the csv module itself round-trips (counted discards).",
+    ),
     "C06": dict(
         category="exploration", design_ref="DESIGN.md 3 C06",
         technique="runtime monitoring: invariant at a hook (answer battery live index vs Index().build(storage)) over a bounded-exhaustive state-graph exploration + random histories",
@@ -80,6 +90,24 @@ CHECKS = {
              "database operation (on the live db for reads, on a deepcopy/file-copy twin for writes); points of other measurements must "
              "be untouched and never returned; inserted points must land under name.",
         note="measurement names non-empty; <= 12 rows; a defect shared identically by handle and database operation is not attributed to C10.",
+    ),
+    "C11": dict(
+        category="fault_enumeration", design_ref="DESIGN.md 3 C11",
+        technique="runtime monitoring with enumerated fault positions: failing calls injected after seeded histories; contents, C06 index battery and later operations compared with the reference model",
+        text="A non-Point or raising generator at every position of insert_multiple, an update/update_all callable raising or returning an "
+             "invalid value on the i-th selected point for every i, 23 invalid-argument calls over every entry point and 8 writes on a "
+             "read-only database are injected after seeded prefix histories in 4 configurations; afterwards the contents must equal the "
+             "pre-state (+ inserted prefix), the valid index must agree with a rebuild, and 5-10 further operations with ~24 reads each "
+             "must agree with the model (attributed via a history-free twin).",
+        note="positions enumerated exhaustively per history; single-slot misbehaving callables.",
+    ),
+    "C14": dict(
+        category="exploration", design_ref="DESIGN.md 3 C14",
+        technique="runtime monitoring: type sentinel hooked on storage.append (primary and temporary) + validity predicate on everything read back, over an exhaustive entry-point x slot x wrong-value battery",
+        text="Exhaustive product of entry points (Point(), attribute assignment, insert(measurement=), update/update_all/handle variants, "
+             "static or via callable) x 6 slots x wrongly typed values x {memory, CSV} x {auto_index on/off}: the call must raise "
+             "ValueError/TypeError, the sentinel on storage.append must never see an invalid item and every point read back must be valid.",
+        note="API paths only (in-place mutation of a Point's dicts is not an API path); falsy wrong values given directly as update(time=/measurement=) mean 'argument absent'.",
     ),
     "C17": dict(
         category="exploration", design_ref="DESIGN.md 3 C17",
